@@ -267,6 +267,63 @@ def ifchain_table(fx, fn):
     return out
 
 
+def threshold_table(fx, fn):
+    """a function of one integer written as range arms or as an if / else-if chain of `x < c` / `x <= c` tests on one
+    subject with constant results: [(inclusive upper bound or None for the rest, result int)] in order, or None"""
+    m = find_match(fn)
+    if m is not None:
+        out = []
+        for p, r, _ in match_table(fx, m):
+            if r[0] != "int":
+                return None
+            if p[0] == "range" and p[2] is not None:
+                out.append((p[2], r[1]))
+            elif p[0] == "int":
+                out.append((p[1], r[1]))
+            elif p[0] in ("wild", "bind"):
+                out.append((None, r[1]))
+            else:
+                return None
+        return out
+    root = hirq.body_root(fn)
+    e = root.get("expr") if root.get("k") == "block" else root
+    if not isinstance(e, dict):
+        return None
+    e = peel(e)
+    out = []
+    subject = None
+    while isinstance(e, dict) and e.get("k") == "if":
+        c = e["cond"]
+        if c.get("k") != "bin" or c.get("op") not in ("Lt", "Le", "Gt", "Ge"):
+            return None
+        try:
+            if c["op"] in ("Lt", "Le"):
+                subj, bound = hirq.expr_str(c["l"]), eval_const(fx, c["r"])
+                ub = bound - 1 if c["op"] == "Lt" else bound
+            else:
+                # c >= x  /  c > x
+                subj, bound = hirq.expr_str(c["r"]), eval_const(fx, c["l"])
+                ub = bound if c["op"] == "Ge" else bound - 1
+        except NotConst:
+            return None
+        if subject is None:
+            subject = subj
+        elif subject != subj:
+            return None
+        r = result_norm(fx, e["then"])
+        if r[0] != "int" or "else" not in e:
+            return None
+        out.append((ub, r[1]))
+        e = peel(e["else"])
+    if not out:
+        return None
+    r = result_norm(fx, e)
+    if r[0] != "int":
+        return None
+    out.append((None, r[1]))
+    return out
+
+
 def fourcc_of(code):
     return bytes([(code >> 24) & 255, (code >> 16) & 255, (code >> 8) & 255, code & 255]).decode("latin-1")
 
